@@ -28,3 +28,19 @@ func Dump(args []string) {
 		}
 	}
 }
+
+// Count prints the size of every family of a tier's plan (`harness c03bcount thorough`).
+func Count(args []string) {
+	tier := "quick"
+	if len(args) > 0 {
+		tier = args[0]
+	}
+	for _, fam := range plan(tier) {
+		n := 0
+		fam.Gen(func(s Spec) { n++ })
+		fmt.Printf("%s %9d  %s\n", fam.Mode, n, fam.Name)
+	}
+	for n := 1; n <= 6; n++ {
+		fmt.Printf("shapes(%d)=%d\n", n, len(Shapes(n)))
+	}
+}
